@@ -210,6 +210,15 @@ def compare(simu, key, where):
     ref = dense_reference(simu.Construct_local_matrix_system(pt), dof_n, Ndof)
     v = []
     fps = []
+    # the system the simulation keeps (Get_K_C_M_F: rebuilt only when something announced a change) is the same scatter-add
+    kept = simu.Get_K_C_M_F(pt)
+    for name, G, R in zip("KCMF", kept, ref):
+        Gd = G.toarray() if hasattr(G, "toarray") else np.asarray(G)
+        sc = max(np.abs(R).max(), 1e-300) if R.size else 1.0
+        if Gd.shape != R.shape or (R.size and np.abs(Gd - R).max() > 1e-13 * sc):
+            v.append(viol("kept_system_mismatch", f"{where}: Get_K_C_M_F {name} (shape {Gd.shape}) differs from the dense scatter-add of the current element arrays "
+                                                  f"(shape {R.shape})", slot=name, **key))
+            break
     for name, G, R in zip("KCMF", got, ref):
         Gd = G.toarray() if hasattr(G, "toarray") else np.asarray(G)
         fps.append(fp(Gd))
@@ -349,7 +358,16 @@ def _run_realsim(case):
         return {"violations": [], "skipped": "not applicable to a multi-group mesh", "fingerprint": "na", "nontrivial": False}
     v, fps, ntr = [], [], 0
     r = rng("c03real", sim, meshname)
-    for rep in range(3):
+    for rep in range(4 if sim == "phasefield" else 3):
+        if rep == 3:
+            # a multi-point condition attached to ONE of the two problems: only that system grows
+            from EasyFEA.FEM import LagrangeCondition
+
+            pt_l = [p_ for p_ in s.Get_problemTypes() if p_ != s.problemType][0]
+            unk = s.Get_unknowns(pt_l)
+            nodes = np.array([0, 1])
+            dofs = s.Bc_dofs_nodes(nodes, [unk[0]], pt_l)
+            s._Bc_Add_Lagrange(LagrangeCondition(pt_l, nodes, dofs, [unk[0]], np.asarray([0.0]), np.asarray([1.0, -1.0]), "probe"))
         if rep == 1 and sim in ("elastic", "thermal", "phasefield"):
             # move the state so that state-dependent element arrays change between assemblies (same pattern, new values)
             for pt in s.Get_problemTypes():
